@@ -36,6 +36,10 @@ class Unsupported(Exception):
     pass
 
 
+class UBPath(Exception):
+    """the path indexes an array out of range: undefined in C, excluded (assumption A-idx)"""
+
+
 def parse_num(s):
     s = s.strip()
     neg = s.startswith('-')
@@ -279,7 +283,7 @@ class State:
         self.steps = 0; self.back = 0; self.cycles = 0
         self.events = []         # volatile events (kind, addr, value)
         self.faults = []         # split-port faults: list of (cond, text)
-        self.done = False; self.ret_a = None; self.pstk = []
+        self.done = False; self.ret_a = None; self.pstk = []; self.cyc0 = 0
     def clone(self):
         s = State.__new__(State); s.__dict__ = dict(self.__dict__)
         s.M = self.M.clone(); s.pcond = list(self.pcond); s.rs = list(self.rs); s.events = list(self.events); s.faults = list(self.faults)
@@ -312,12 +316,15 @@ class Machine:
         self.max_back, self.max_steps, self.max_paths = max_back, max_steps, max_paths
         self.queries = 0
         self.bound_hits = []
-        self.inline_hook = None
+        self.extents = None      # [(lo, hi_exclusive)] element ranges of named arrays (A-idx); None = unconstrained
+        self.ub_paths = 0
 
     # -- address helpers
     def _ea(self, s, i):
         m = i.mode
         if m in ('zp', 'abs'): return i.expr
+        if m in ('zpx', 'zpy', 'abx', 'aby') and self.extents is not None:
+            self._in_range(s, i.expr, s.X if m in ('zpx', 'abx') else s.Y)
         if m == 'zpx': return self._zpwrap(i.expr, s.X)
         if m == 'zpy': return self._zpwrap(i.expr, s.Y)
         if m == 'abx': return add16(i.expr, zext16(s.X))
@@ -329,6 +336,17 @@ class Machine:
         if m == 'izx':
             raise Unsupported('(zp,X) addressing')
         raise Unsupported('mode ' + m)
+
+    def _in_range(self, s, base, idx):
+        for lo, hi in self.extents:
+            if lo <= base < hi:
+                lim = hi - base
+                if lim >= 256: return
+                if is_c(idx):
+                    if idx >= lim: raise UBPath()
+                else:
+                    s.pcond.append(z3.ULT(idx, z3.BitVecVal(lim, 8)))
+                return
 
     def _zpwrap(self, base, idx):
         if is_c(idx): return (base + idx) & 0xff
@@ -343,14 +361,14 @@ class Machine:
             a = self.ports.read(self, s, a, rmw)
         v = s.M.load(a)
         if self.hw is not None and not quiet and self._is_hw(a):
-            s.events.append(('R', a, None))
+            s.events.append(('R', a, None, s.cyc0))
         return v
 
     def _wr(self, s, a, v, rmw=False):
         if self.ports:
             a = self.ports.write(self, s, a, rmw)
         if self.hw is not None and self._is_hw(a):
-            s.events.append(('W', a, v))
+            s.events.append(('W', a, v, s.cyc0))
             return        # hardware registers are not memory: writes have no readable effect
         s.M.store(a, v)
 
@@ -369,6 +387,7 @@ class Machine:
         P = self.P
         i = P.code[s.pc]
         s.steps += 1
+        s.cyc0 = s.cycles
         s.cycles += i.cycles or 0
         mn = i.mn
         nxt = s.pc + 1
@@ -481,7 +500,8 @@ class Machine:
             s.S = (s.S + 1) & 0xff
             if not s.pstk or s.pstk[-1][0] != s.S: raise Unsupported('PLP of a non-PHP value')
             _, s.N, s.Z, s.C, s.V = s.pstk[-1]; s.pstk = s.pstk[:-1]
-        elif mn == 'NOP': pass
+        elif mn == 'NOP':
+            if self.hw is not None: s.events.append(('N', 0, None, s.cyc0))
         else: raise Unsupported(mn)
 
     def run(self, s0):
@@ -495,7 +515,10 @@ class Machine:
                 if s.done: out.append(s); break
                 if s.steps >= self.max_steps or s.back > self.max_back:
                     self.bound_hits.append(s); break
-                nx = self.step(s)
+                try:
+                    nx = self.step(s)
+                except UBPath:
+                    self.ub_paths += 1; break
                 if len(nx) == 1: s = nx[0]; continue
                 if len(out) + len(work) + len(nx) > self.max_paths:
                     raise Unsupported('path explosion (> %d paths)' % self.max_paths)
